@@ -138,10 +138,29 @@ package noise
 
 // a new session starts with an empty read queue (qinv and qfill hold trivially)
 //@ func newSecureSession
-//@ prop C02
+//@ prop C02 C01
 //@ ensures result0 != nil ==> fresh(result0) && result0.qbuf == nil && result0.qseek == 0 && result0.insecureConn == insecure
+// C01: the session keeps the role, check flag and prologue asked for; it is handed out together with the error received
+// from the handshake goroutine, and a nil error means: the reported ID is the one derived from the reported key (which
+// passed handleRemoteHandshakePayload in runHandshake) and - check enabled - it is the expected peer
+//@ ensures result0 != nil ==> result0.initiator == initiator && result0.checkPeerID == checkPeerID && result0.prologue == prologue
+//@ ensures result0 != nil ==> result0 == s && recvd(respCh) == 1 && result1 == recvval(respCh)
+//@ ensures result1 == nil && result0 != nil ==> authed(result0) && (checkPeerID ==> result0.remoteID == remote)
+// what the goroutine hands over with its result (proved at its send, assumed at the receives; the receive forgets the heap)
+//@ chaninv respCh(v error) = s.insecureConn == insecure && s.qbuf == nil && s.qseek == 0 && s.initiator == initiator && s.checkPeerID == checkPeerID &&
+//@         s.prologue == prologue && (v == nil ==> authed(s) && (checkPeerID ==> s.remoteID == remote))
 //@ noframe
 // the handshake goroutine never touches the read queue
 //@ closure 0
+// spawn-pre: the session starts with the expected peer, no remote key, the role, check flag, prologue and connection asked for
+//@ requires s.remoteID == remote && s.remoteKey == nil && s.checkPeerID == checkPeerID && s.initiator == initiator && s.prologue == prologue &&
+//@         s.insecureConn == insecure && s.qbuf == nil && s.qseek == 0
 //@ ensures s.qbuf == old(s.qbuf) && s.qseek == old(s.qseek)
+// C01: the goroutine runs the handshake of this very session and sends exactly its result; it changes neither role, check
+// flag, prologue nor local key; whatever it leaves in remoteID/remoteKey is either untouched or an identity that passed
+// handleRemoteHandshakePayload and (check enabled) equals the expected peer
+//@ ensures called(runHandshake, 0) && arg(runHandshake, 0, 0) == s && sent(respCh) == 1 && sentval(respCh) == ret(runHandshake, 0, 0)
+//@ ensures ret(runHandshake, 0, 0) == nil ==> authed(s) && (checkPeerID ==> s.remoteID == remote)
+//@ ensures (s.remoteKey == nil && s.remoteID == remote) || (authed(s) && (checkPeerID ==> s.remoteID == remote))
+//@ ensures s.initiator == old(s.initiator) && s.checkPeerID == old(s.checkPeerID) && s.prologue == old(s.prologue) && s.localKey == old(s.localKey)
 //@ noframe
